@@ -170,10 +170,11 @@ type execStub struct {
 	violations   []string
 	nonces       map[string]uint64
 	seenTx       map[string]uint64
+	firstSeenMs  map[string]int64 // wall time (ms since process start) a transaction was first delivered here
 }
 
 func newExecStub(name string, base uint64) *execStub {
-	return &execStub{name: name, lastExecuted: base, blocks: map[uint64]*deliveredBlock{}, nonces: map[string]uint64{}, seenTx: map[string]uint64{}}
+	return &execStub{name: name, lastExecuted: base, blocks: map[uint64]*deliveredBlock{}, nonces: map[string]uint64{}, seenTx: map[string]uint64{}, firstSeenMs: map[string]int64{}}
 }
 
 // execute consumes one commit event like the executor: it must be the next height.
@@ -199,6 +200,9 @@ func (e *execStub) execute(ev *pb.CommitEvent) *deliveredBlock {
 			e.violations = append(e.violations, fmt.Sprintf("%s: transaction %s is in block %d and again in block %d", e.name, th, prev, h))
 		}
 		e.seenTx[th] = h
+		if _, ok := e.firstSeenMs[th]; !ok {
+			e.firstSeenMs[th] = time.Since(processStart).Milliseconds()
+		}
 	}
 	for _, tx := range ev.Block.Transactions.Transactions {
 		if tx.GetNonce()+1 > e.nonces[tx.GetFrom().String()] {
